@@ -228,6 +228,47 @@ def after_refused_commit(mode_r: bool, twice: bool) -> bool:
         return ok
 
 
+def merge_small(npatches: int, exts: bool) -> bool:
+    """
+    pre: 0 <= npatches <= 2
+    post: _
+    """
+    # records built through the API with 1..3 containers (base only included): the merged record opens
+    # under the same class, keeps the manifest (uuid, extensions) of the source and shows the same tree
+    C = CLS[SEL.get("cls", "mf")]
+    for c in range(3):
+        if npatches == c:
+            npatches = c
+            break
+    exts = True if exts else False
+    reach()
+    with untraced():
+        INST.reset()
+        r = C(REC_PATH, "w")
+        r["a/x"] = 1
+        r["a"].attrs["k"] = 2
+        kw = {"manifest_exts": {"keep": 1}} if (exts and C is IH5MFRecord) else {}
+        r.commit_patch(**kw)
+        for i in range(npatches):
+            r.create_patch()
+            r["p%d" % i] = i
+            r.commit_patch()
+        v = view(r)
+        r.merge_files(FakePath("/d/mrg"))
+        src_manifest = getattr(r, "_manifest", None)
+        r.close()
+        try:
+            m = C("/d/mrg", "r")
+        except ValueError as e:
+            note(("merged record does not open", str(e)[:160]))
+            return False
+        ok = view(m) == v
+        if C is IH5MFRecord:
+            ok = ok and m.manifest.manifest_uuid == src_manifest.manifest_uuid and m.manifest.manifest_exts == src_manifest.manifest_exts
+        m.close()
+        return ok
+
+
 def refused_stub(patched: bool, reopened: bool) -> bool:
     """
     post: _
